@@ -1,7 +1,8 @@
 (* Model of factstore/temporal.go: TemporalStore (one interval tree per atom),
    Add with validity and per-atom limit checks, the three queries, ContainsAt,
    the pair count, and Coalesce / coalesceIntervals with Go's wrapping int64
-   arithmetic. Executable definitions only. Atoms carry constant identifiers;
+   arithmetic (after fix N13; the test before the fix is kept as
+   adjacent_prefix / merge_prefix). Executable definitions only. Atoms carry constant identifiers;
    the hash keying of the Go maps is abstracted (see DESIGN, finding F8). *)
 From Coq Require Import List ZArith Bool.
 From MV Require Import Temporal.ITree.
@@ -87,28 +88,45 @@ Fixpoint ins_sorted (x : Z * Z) (l : list (Z * Z)) :=
   end.
 Definition sort_by_start (l : list (Z * Z)) := fold_left (fun acc x => ins_sorted x acc) l [].
 
-(* the merge loop of coalesceIntervals, `cur` being result[len(result)-1] *)
-Fixpoint merge (cur : Z * Z) (rest : list (Z * Z)) : list (Z * Z) :=
-  match rest with
-  | [] => [cur]
-  | x :: rest' =>
-      if wrap64 (fst x - 1) <=? snd cur
-      then merge (fst cur, Z.max (snd cur) (snd x)) rest'
-      else cur :: merge x rest'
-  end.
+(* the merge loop of coalesceIntervals, `cur` being result[len(result)-1]; `adj`
+   is the overlap-or-adjacent test of temporal.go:364 *)
+Section MergeLoop.
+  Variable adj : Z * Z -> Z * Z -> bool.      (* adj cur x *)
+  Fixpoint merge_with (cur : Z * Z) (rest : list (Z * Z)) : list (Z * Z) :=
+    match rest with
+    | [] => [cur]
+    | x :: rest' =>
+        if adj cur x
+        then merge_with (fst cur, Z.max (snd cur) (snd x)) rest'
+        else cur :: merge_with x rest'
+    end.
 
-Definition coalesce_intervals (l : list iv) : list iv :=
-  match l with
-  | [] | [_] => l
-  | _ =>
-    let concrete := filter is_concrete l in
-    let other := filter (fun i => negb (is_concrete i)) l in
-    match sort_by_start (map se concrete) with
-    | [] => other
-    | [c] => concrete ++ other
-    | c :: rest => map of_se (merge c rest) ++ other
-    end
-  end.
+  Definition coalesce_intervals_with (l : list iv) : list iv :=
+    match l with
+    | [] | [_] => l
+    | _ =>
+      let concrete := filter is_concrete l in
+      let other := filter (fun i => negb (is_concrete i)) l in
+      match sort_by_start (map se concrete) with
+      | [] => other
+      | [c] => concrete ++ other
+      | c :: rest => map of_se (merge_with c rest) ++ other
+      end
+    end.
+End MergeLoop.
+
+(* `curr.Start <= last.End || curr.Start-1 == last.End` (after fix N13): the
+   subtraction is Go's wrapping int64 subtraction; it is only reached when
+   curr.Start > last.End *)
+Definition adjacent (cur x : Z * Z) : bool :=
+  (fst x <=? snd cur) || (wrap64 (fst x - 1) =? snd cur).
+Definition merge := merge_with adjacent.
+Definition coalesce_intervals := coalesce_intervals_with adjacent.
+
+(* before fix N13: `last.End >= curr.Start-1`, where Start-1 wraps at MinInt64 *)
+Definition adjacent_prefix (cur x : Z * Z) : bool := wrap64 (fst x - 1) <=? snd cur.
+Definition merge_prefix := merge_with adjacent_prefix.
+Definition coalesce_intervals_prefix := coalesce_intervals_with adjacent_prefix.
 
 Definition ts_coalesce (s : tstore) (p : Z) : tstore :=
   let step (acc : list (atom * itree) * Z) (e : atom * itree) :=
